@@ -117,6 +117,10 @@ func Run(cfg hx.Config) (*hx.Meta, error) {
 	meta := &hx.Meta{Property: "C13", Seed: cfg.Seed, Tier: cfg.Tier}
 	r := hx.NewRand(cfg.Seed)
 	cat := ga.NewCatalogue()
+	// element types with user Equal/Compare methods: ME, MP (methods look at F0, results -1/0/+1) and
+	// MG, MGP (methods look at F1 and return a difference), see Go/Methods.v
+	cat.WithMethods = true
+	cat.WithMagMethods = true
 	thorough := cfg.Tier == "thorough"
 	var types []*ga.Type
 	pool := 10
@@ -129,6 +133,7 @@ func Run(cfg hx.Config) (*hx.Meta, error) {
 		hx.Shuffle(r, d2)
 		types = ga.Dedup(append(types, d2[:40]...))
 	}
+	types = ga.Dedup(append(methodTypes(cat), types...))
 	types = corpusFirst(cfg.Corpus, cat, r, types, meta)
 	for _, t := range types {
 		byGo[t.Go(0)] = t
@@ -291,7 +296,7 @@ func Run(cfg hx.Config) (*hx.Meta, error) {
 		gen := ga.NewGen(rs[b], pool)
 		cb := &cases{r: rs[b], gen: gen, thorough: thorough, meta: meta}
 		for i, t := range bt.types {
-			vals := gen.Pool(t, map[int]*ga.Type{}, 3)
+			vals := append(gen.Pool(t, map[int]*ga.Type{}, 3), methodVals(cat, t, gen)...)
 			cb.forType(bt.idx[i], t, vals, has("sort"), has("minmax"), has("keys") && mapOf(t) != nil)
 		}
 		res := p.RunDriver(cb.text.String())
@@ -334,6 +339,74 @@ func Run(cfg hx.Config) (*hx.Meta, error) {
 	meta.Count(fmt.Sprintf("types=%d usable=%d", len(types), nuse))
 	nanKeys(cfg, meta)
 	return meta, nil
+}
+
+// methodTypes: the positions in which an element type can carry a user Compare method — the struct
+// VALUE itself, a pointer to it, a struct field (value and pointer), slice / array elements, map
+// values, and (for the comparable value-method structs) map keys.  Always part of the battery.
+func methodTypes(c *ga.Catalogue) []*ga.Type {
+	var out []*ga.Type
+	for _, l := range []*ga.Type{c.ME, c.MP, c.MG, c.MGP} {
+		out = append(out, l, ga.P(l), ga.Sl(l), ga.Sl(ga.P(l)), ga.Ar(2, l),
+			ga.M(ga.B("string"), l), ga.M(ga.B("int"), ga.P(l)))
+	}
+	for _, w := range c.MW { // a method type as a field of a named struct
+		out = append(out, w, ga.P(w), ga.Sl(w))
+	}
+	for _, k := range []*ga.Type{c.ME, c.MG} {
+		out = append(out, ga.M(k, ga.B("int")), ga.M(k, c.S0), ga.Sl(ga.M(k, ga.B("string"))))
+	}
+	out = append(out, ga.M(c.ME, c.MG))
+	return out
+}
+
+// methodVals: for a method struct itself (and a pointer to it) values on which the method's order and the
+// field-by-field order disagree, which the method identifies although they differ, and (magnitude
+// class) whose keys are further apart than 1.  They are appended after the pool cap, so every such
+// list holds them.
+func methodVals(c *ga.Catalogue, t *ga.Type, g *ga.Gen) []*ga.Val {
+	ptr := false
+	if t.K == ga.KPtr {
+		ptr = true
+		t = t.Elem
+	}
+	if t.K != ga.KNamed {
+		return nil
+	}
+	i := func(n int) *ga.Val { return &ga.Val{K: "i", Int: fmt.Sprint(n)} }
+	s := func(x string) *ga.Val { return &ga.Val{K: "s", Str: []byte(x)} }
+	st := func(es ...*ga.Val) *ga.Val { return &ga.Val{K: "st", Elems: es} }
+	ints := func(ns ...int) *ga.Val {
+		v := &ga.Val{K: "sl", Loc: g.Fresh()}
+		for _, n := range ns {
+			v.Elems = append(v.Elems, i(n))
+		}
+		return v
+	}
+	var vs []*ga.Val
+	switch t.ID {
+	case c.ME.ID: // F0 int decides, F1 string ignored
+		vs = []*ga.Val{st(i(2), s("z")), st(i(5), s("a")), st(i(5), s("b")), st(i(2), s("a")), st(i(-40), s("m"))}
+	case c.MP.ID: // F0 string decides, F1 []int ignored
+		vs = []*ga.Val{st(s("b"), ints(1)), st(s("a"), ints(9, 9)), st(s("a"), &ga.Val{K: "nils"}), st(s("b"), ints()), st(s("c"), ints(0))}
+	case c.MG.ID:
+		for _, x := range c.MG.ExtraVals {
+			vs = append(vs, x.Clone(g.Fresh))
+		}
+	case c.MGP.ID:
+		for _, x := range c.MGP.ExtraVals {
+			vs = append(vs, x.Clone(g.Fresh))
+		}
+		vs = append(vs, st(s("a"), i(5), ints(3)), st(s("y"), i(1), ints(1, 2)))
+	default:
+		return nil
+	}
+	if ptr {
+		for k, v := range vs {
+			vs[k] = &ga.Val{K: "p", Loc: g.Fresh(), Elems: []*ga.Val{v}}
+		}
+	}
+	return vs
 }
 
 // pickSamples: one observation of each kind from a batch output.
